@@ -1,6 +1,6 @@
 package main
 
-// C07 — post-aggregation clauses. Three families of case lines:
+// C07 — post-aggregation clauses. Four families of case lines (the M family lives in c07b.go):
 //   C07 Q ...  a generated aggregation query run on ONE batch of generated rows, either through the
 //              verif batch runner (mode h: the real aggregator + processAggregationResults, no window,
 //              1-6 groups) or through the public API on CountingWindow(N) (mode p: one group);
@@ -177,16 +177,24 @@ func (h *c7hexp) usesDiv() bool {
 }
 
 type c7hpred struct {
-	kind byte // '?' comparison, '&', '|'
+	kind byte // '?' comparison, '&', '|', 'C' searched CASE as the condition, 'K' searched CASE cmp z (c07b.go)
 	cmp  string
 	x, y *c7hexp
 	p, q *c7hpred
+	// 'C' / 'K'
+	whens []c7when
+	els   *c7hexp
+	z     *c7hexp
 }
 
 func (h *c7hpred) sql() string {
 	switch h.kind {
 	case '?':
 		return h.x.sql() + " " + h.cmp + " " + h.y.sql()
+	case 'C':
+		return h.caseSQL()
+	case 'K':
+		return h.caseSQL() + " " + h.cmp + " " + h.z.sql()
 	case '&':
 		return h.p.sql() + " AND " + h.q.sql()
 	}
@@ -199,14 +207,21 @@ func (h *c7hpred) tok() string {
 	switch h.kind {
 	case '?':
 		return fmt.Sprintf("? %s %s %s", c7cmpTok[h.cmp], h.x.tok(), h.y.tok())
+	case 'C':
+		return "C " + h.caseTok()
+	case 'K':
+		return "K " + c7cmpTok[h.cmp] + " " + h.caseTok() + " " + h.z.tok()
 	case '&':
 		return "& " + h.p.tok() + " " + h.q.tok()
 	}
 	return "| " + h.p.tok() + " " + h.q.tok()
 }
 func (h *c7hpred) usesDiv() bool {
-	if h.kind == '?' {
+	switch h.kind {
+	case '?':
 		return h.x.usesDiv() || h.y.usesDiv()
+	case 'C', 'K':
+		return h.caseUsesDiv()
 	}
 	return h.p.usesDiv() || h.q.usesDiv()
 }
@@ -443,7 +458,11 @@ func c7genQuery(rng *RNG, ngroup int) *c7query {
 	}
 	q.distinct = rng.Intn(4) == 0
 	if rng.Intn(3) > 0 {
-		q.having = c7genHpred(rng, q, 2)
+		if rng.Intn(3) == 0 {
+			q.having = c7genCaseHaving(rng, q) // CASE forms: the other evaluation path of applyHavingFilter
+		} else {
+			q.having = c7genHpred(rng, q, 2)
+		}
 	}
 	nk := rng.Intn(4)
 	used := map[string]bool{}
@@ -841,6 +860,7 @@ func c7sortCase(rng *RNG, o *Out, nrows int, mixed bool) {
 // ---------------------------------------------------------------- runner
 func runC07(tier string, seed uint64, o *Out) error {
 	rng := NewRNG(seed)
+	rng.s = rng.Next() ^ 0xC07C07C07C07 // consecutive seeds of the shared splitmix state are shifted copies of one stream: re-key
 	nq, npub, nsort := 1500, 36, 1200
 	if tier == "thorough" {
 		nq, npub, nsort = 40000, 300, 30000
@@ -859,6 +879,9 @@ func runC07(tier string, seed uint64, o *Out) error {
 		o.Count(fmt.Sprintf("hook_groupcols_%d", ngroup))
 		if q.having != nil {
 			o.Count("with_having")
+			if k := q.having.caseKind(); k != "" {
+				o.Count("having_" + k)
+			}
 		}
 		if len(q.order) > 0 {
 			o.Count(fmt.Sprintf("order_keys_%d", len(q.order)))
@@ -869,6 +892,11 @@ func runC07(tier string, seed uint64, o *Out) error {
 		if q.distinct {
 			o.Count("with_distinct")
 		}
+	}
+	// (1b) K consecutive batches through one stream; the consumers keep every delivered batch and look
+	// at them only at the end (c07b.go)
+	if err := c7runMultiFamily(rng, tier, o); err != nil {
+		return err
 	}
 	// (2) public API: CountingWindow(N), one group
 	type job struct {
